@@ -24,7 +24,7 @@ Definition jv_fields (fs : list (string * fval)) : jv := JL (map (fun f => JL [j
 Definition jv_shape (s : shape) : jv := jstr (match s with Scalar => "Scalar" | Tuple => "Tuple" | ListOf => "ListOf" end).
 
 Definition resolve_fields (p : plat) (fs : list (string * dsrc)) : option (list (string * src)) :=
-  fold_right (fun f acc => match acc, resolve slot_maps p (snd f) with
+  fold_right (fun f acc => match acc, resolve p (snd f) with
                            | Some l, Some s => Some ((fst f, s) :: l) | _, _ => None end) (Some []) fs.
 
 (* slot usage on an arbitrary native record: the probed row (translator) and the documented layout *)
@@ -45,7 +45,7 @@ Definition run_layout (p : plat) (meth variant : string) (rs : records) : jv :=
 Definition run_dep (p : plat) (meth : string) : jv :=
   match doc_deps p meth with
   | Some ((map, attr) :: _) =>
-      match resolve slot_maps p (DMap map attr 1), find_urow p meth "" usage_rows with
+      match resolve p (DMap map attr 1), find_urow p meth "" usage_rows with
       | Some (SSlot fn i _), Some u =>
           JL [jbool (existsb (fun d => String.eqb (fst d) fn && (snd d =? i)) (u_deps u)); jbool true]
       | _, _ => JL [JC "NoRow" []; jbool true]
@@ -76,7 +76,7 @@ Definition run_names (p : plat) : jv :=
 Definition run_tables : jv :=
   JL [ JL (map (fun b => JL [jstr (l_meth b); jstr (l_site b)]) (filter (fun b => negb (block_spec_ok b)) ladder_blocks));
        JL (map (fun b => JL [jstr (l_meth b); jstr (l_site b)]) (filter (fun b => negb (block_model_ok b)) ladder_blocks));
-       JL (map (fun u => JL [jstr (u_meth u); jstr (u_variant u)]) (filter (fun u => negb (row_ok slot_maps u)) usage_rows));
+       JL (map (fun u => JL [jstr (u_meth u); jstr (u_variant u)]) (filter (fun u => negb (row_ok u)) usage_rows));
        jbool (forallb smap_bijective slot_maps && forallb smap_native_ok slot_maps && smaps_complete slot_maps);
        jbool (usage_complete usage_rows);
        jbool (forallb names_ok names_rows && names_complete names_rows);
